@@ -10,7 +10,7 @@ def check(run, tier, seed, replay=None):
         vlib.build_harness()
         C14.sliced_extra(run, tier, seed, "fault", ID_SLICE, replay)
         return
-    setcheck.set_check(run, "C04", tier, seed, replay, 1200, 20000, "judge04",
+    setcheck.set_check(run, "C04", tier, seed, replay, 1200, 20000, "judge04g",
                        "C04 delete issued before later phases are gone, or finalizer removed / Archived=True reported while objects are still controlled",
                        "seeded random worlds biased to deleting and archived ObjectSets: members with finalizers that delay deletion, "
                        "already deleting, taken over by others, gone; orphan finalizer; finalizer already removed; plus the exhaustive "
